@@ -113,8 +113,10 @@ class NdefApp(object):
                 return b"\x6B\x00"
             if self.enforce and le > self.mle:
                 return b"\x67\x00"
-            if self.cur == self.ndef_fid and off >= 2:
-                le += getattr(self, "over_answer", 0)      # a card that returns more message data than Le asked for
+            where = getattr(self, "over_where", "data")
+            if self.cur == self.ndef_fid and (off >= 2 if where == "data" else off == 0 if where == "nlen" else True):
+                # a card that returns more data than Le asked for (message data / the length field / every read)
+                le += getattr(self, "over_answer", 0)
             return bytes(f[off:off + le]) + b"\x90\x00"
         if ins == 0xD6:
             if self.cur is None:
